@@ -65,6 +65,7 @@ func runC13(c *hx.Ctx) {
 	repeatedTakeovers(o, c)
 	retainedWillTakeover(o, c)
 	takeoverChainUnderTraffic(o, c)
+	runFlowC13(o, c) // r5_flow_resume.go
 	killTimeoutThenConnect(o, c)
 	blockedTakeover(o, c)
 }
